@@ -283,3 +283,7 @@ def run(ctx):
     c06.rule_plausible_stack(ctx, R="C07/stack-found/plausible")
     c06.rule_find_mapping(ctx, R="C07/stack-found/lookup")
     c06.rule_page_start(ctx, R="C07/stack-found/page-start")
+    # the requested regions and the crash context are what the caller configured, in every dump from this writer (same rule instance as C19/config-preserved)
+    from rules import c19 as _c19
+    _c19.rule_config_preserved(ctx, R="C07/options-kept", only=("app_memory", "crash_context"))
+
